@@ -154,7 +154,9 @@ impl<'a> LedgerGen<'a> {
         rng.shuffle(&mut accts);
         accts.truncate(cfg.n_accounts.max(2));
         // keep parent and child together often enough: a report on the parent must not absorb the child
-        for (parent, child) in [("Assets:Bank", "Assets:Bank:Savings"), ("Expenses:Travel", "Expenses:Travel:Train"), ("Assets:Bank", "Assets:Bank2")] {
+        for (parent, child) in [("Assets:Bank", "Assets:Bank:Savings"), ("Expenses:Travel", "Expenses:Travel:Train"), ("Assets:Bank", "Assets:Bank2"),
+            // names that differ in letter case only are different accounts (and must sort the same way in every process)
+            ("Expenses:Food", "Expenses:food"), ("Assets:Cash", "Assets:CASH"), ("Income:Salary", "income:Salary")] {
             if accts.iter().any(|a| a == parent) && !accts.iter().any(|a| a == child) && rng.chance(1, 3) {
                 accts.push(child.to_string());
             }
@@ -305,7 +307,7 @@ impl<'a> LedgerGen<'a> {
         c
     }
 
-    fn two_commodities(&mut self) -> Option<(String, String)> {
+    pub fn two_commodities(&mut self) -> Option<(String, String)> {
         if self.commodities.len() < 2 {
             return None;
         }
@@ -444,7 +446,9 @@ impl<'a> LedgerGen<'a> {
                 p1.amount = Some(self.lit(q, &xw));
                 let other: Dec;
                 if total_mode {
-                    let tot = (q * r).abs();
+                    // half of the totals are drawn on their own, so that total / quantity need not
+                    // terminate (a total is a total, never a rate times a quantity)
+                    let tot = if self.rng.chance(1, 2) { (q * r).abs() } else { self.value(true) };
                     let ex = Exchange {
                         total: true,
                         expr: self.lit(tot, &yw),
